@@ -40,8 +40,8 @@ def _golit_bounded(b): return ['golit_%s_%s' % (t, b) for t in ('i32', 'i64', 'u
 # ------------------------------------------------------------------------------------------------------------------ groups
 GROUPS = {
     'lexer-mls': dict(crate='lexer', inject={'crates/lexer/src/lib.rs': _h('lexer_mls.rs')}, extra=[], mem_gb=8,
-                      harnesses={'quick': ['mls_len%d' % i for i in range(0, 6)], 'thorough': ['mls_len%d' % i for i in range(0, 9)]},
-                      jobs={'quick': 6, 'thorough': 9}, timeout={'quick': 300, 'thorough': 900}),
+                      harnesses={'quick': ['mls_len%02d' % i for i in range(5, -1, -1)], 'thorough': ['mls_len%02d' % i for i in range(10, -1, -1)]},
+                      jobs={'quick': 6, 'thorough': 11}, timeout={'quick': 300, 'thorough': 1200}),
     'parser-bp': dict(crate='parser', inject={'crates/parser/src/expr.rs': _h('parser_bp.rs')}, extra=[], mem_gb=8,
                       harnesses={'quick': ['bp_domains', 'bp_binary_pairs', 'bp_prefix_postfix'], 'thorough': ['bp_domains', 'bp_binary_pairs', 'bp_prefix_postfix']},
                       jobs={'quick': 3, 'thorough': 3}, timeout={'quick': 300, 'thorough': 300}),
@@ -74,10 +74,13 @@ STUB_HASH = 'stub InterfaceUnit::compute_hash -> constant "H" (serde_json+SHA-25
 
 # ------------------------------------------------------------------------------------------------------------------ shared group run
 def _run_id():
-    ppid = os.getppid()
-    try: start = open('/proc/%d/stat' % ppid).read().rsplit(')', 1)[1].split()[19]
+    """one id per ./check run: the pid (+ start time) of the root python process (pool workers are forked from it)"""
+    import multiprocessing as mp
+    pp = mp.parent_process()
+    root = pp.pid if pp is not None else os.getpid()
+    try: start = open('/proc/%d/stat' % root).read().rsplit(')', 1)[1].split()[19]
     except Exception: start = '0'
-    return '%d-%s' % (ppid, start)
+    return '%d-%s' % (root, start)
 
 def _group_key(group, tier):
     g = GROUPS[group]
@@ -176,7 +179,7 @@ def run_ob(r, tier, seed, group, harnesses, functions, bounds, assumptions=(), g
         group, len(results), meta.get('jobs', 0), meta.get('build_s', 0), meta.get('verify_s', 0), ' [result shared with another obligation of this run]' if shared else ''))
     covers = {}
     for hp in GROUPS[group]['inject'].values(): covers[os.path.basename(hp)] = kani.cover_messages(hp)
-    inconclusive = []; order = sorted(hs)
+    inconclusive = []; order = sorted(hs); later_same = []
     if seed: order = order[seed % len(order):] + order[:seed % len(order)]
     for h in order:
         x = results[h]
@@ -190,10 +193,20 @@ def run_ob(r, tier, seed, group, harnesses, functions, bounds, assumptions=(), g
             msg = re.sub(r' @ .*$', '', check).strip('"')
             wit = {'harness': x.get('full_name', h), 'failed_checks': x['failed_checks'][:4], 'input': _decode(h, rep), 'playback_test': rep.get('test')}
             replayed = bool(rep.get('replayed')) and rep.get('same_check', True) is not False
+            key = '%s/%s' % (_role(h), msg)
+            if rep.get('same_as'):                   # same failed check as a harness that was replayed: one finding per role, the others are listed in it
+                first = [f for f in r.findings if f.key == key]
+                if first: first[0].witness.setdefault('also_failed', []).append(h); continue
+                later_same.append((key, h))
             r.findings.append(Finding('%s/%s' % (_role(h), msg), '%s: %s; counterexample input %s' % (h, check, json.dumps(wit['input'])[:300]), wit, replayed,
                                       replay_detail=rep.get('detail', 'no playback')))
         else:
             inconclusive.append('%s: %s' % (h, x['detail']))
+    for key, h in later_same:                    # (the replayed twin came later in the order) fold the unreplayed duplicate into it
+        twins = [f for f in r.findings if f.key == key and f.replayed]
+        dup = [f for f in r.findings if f.key == key and not f.replayed and f.witness.get('harness', '').endswith(h)]
+        if twins and dup:
+            twins[0].witness.setdefault('also_failed', []).append(h); r.findings.remove(dup[0])
     cov_list = [m for ms in covers.values() for m in ms]
     if cov_list: r.samples.append({'cover_sites_of_the_harness_files': cov_list[:24]})
     if inconclusive:
@@ -210,7 +223,7 @@ def _tiered(group, pred):
 # ------------------------------------------------------------------------------------------------------------------ C12 / C04 / C11 : lexer + parser
 MLS_FUNCS = ['lexer::lex_multiline_str', 'logos::Lexer::remainder', 'logos::Lexer::bump', 'logos::Lexer::new']
 MLS_BOUNDS = {'quick': 'source = `\\\\` + every string of exactly L bytes, L = 0..5, over the characters {\\, \\n, space, tab, a, é (2 bytes), → (3 bytes)}; one harness per L, contents symbolic',
-              'thorough': 'source = `\\\\` + every string of exactly L bytes, L = 0..8, over the characters {\\, \\n, space, tab, a, é (2 bytes), → (3 bytes)}; one harness per L, contents symbolic'}
+              'thorough': 'source = `\\\\` + every string of exactly L bytes, L = 0..10, over the characters {\\, \\n, space, tab, a, é (2 bytes), → (3 bytes)}; one harness per L, contents symbolic'}
 MLS_ASSUME = ['the callback runs in the state the logos DFA leaves it in: the regex `\\\\{2}` has matched the first two bytes (harness: Lexer::new + bump(2))',
               'input is valid UTF-8 (a Rust &str) over the 7-character alphabet; bytes other than \\ \\n space tab are all treated alike by the scanner (read off the code)']
 MLS_OUT = 'remainders longer than the bound; the logos DFA itself; `\\r` (lower.rs uses str::lines(), which also strips `\\r\\n`)'
@@ -302,8 +315,8 @@ ART_ASSUME = [STUB_HASH, STUB_RS, 'exports / hir_interface are the empty tables 
 
 def c15_obligations():
     return [
-        _ob('O15.1-validate-conjunction', 'CoreUnit::validate() <=> format_version == FORMAT_VERSION && compiler_abi == COMPILER_ABI && package == interface.package && '
-            'interface_hash == compute_hash() && deps == interface.deps', 'compiler-c15', _tiered('compiler-c15', lambda h: h.startswith('validate_')),
+        _ob('O15.1-validate-conjunction', 'CoreUnit::validate() => format_version == FORMAT_VERSION && compiler_abi == COMPILER_ABI && package == interface.package && '
+            'interface_hash == compute_hash() && deps == interface.deps; and that conjunction (with an embedded interface carrying the current version constants) => validate()', 'compiler-c15', _tiered('compiler-c15', lambda h: h.startswith('validate_')),
             ['compiler::artifact::CoreUnit::validate', 'compiler::artifact::InterfaceUnit::validate_hash', '<BTreeMap<String,String> as PartialEq>::eq', '<String as PartialEq>::eq'],
             'format_version, compiler_abi: every u32 (both units); package names in {A,B}; interface_hash in {H,X}; both dependency maps have the key "A" with symbolic recorded hashes in {A,B}',
             assumptions=ART_ASSUME, outside='maps of other sizes/keys (validate_any_maps: each map empty or one symbolic entry -- ran out of memory at 12 GB / 500 s and is not part of any tier); '
